@@ -2117,6 +2117,8 @@ _TORCH: Dict[str, Callable] = {
     "avg_pool1d": symt.avg_pool, "avg_pool2d": symt.avg_pool, "avg_pool3d": symt.avg_pool,
     "atleast_1d": lambda t: (t if isinstance(t, STensor) else symt.tensor(t)) if (isinstance(t, STensor) and t.ndim > 0) else (t if isinstance(t, STensor) else symt.tensor(t)).reshape(1) if (not isinstance(t, STensor) or t.ndim == 0) and not isinstance(t, (list, tuple)) else symt.tensor(t), "triu_indices": symt.triu_indices,
     "is_tensor": _t_is_tensor, "is_floating_point": _t_is_floating_point, "no_grad": _NoGrad(),
+    "addcmul": lambda inp, t1, t2, value=1: inp.add(t1.mul(t2).mul(value)),
+    "addcdiv": lambda inp, t1, t2, value=1: inp.add(t1.div(t2).mul(value)),
     "zeros_like": lambda t, **k: symt.zeros(t.shape, dtype=k.get("dtype", t.dtype)),
     "ones_like": lambda t, **k: symt.ones(t.shape, dtype=k.get("dtype", t.dtype)),
     "empty_like": lambda t, **k: symt.empty(t.shape, dtype=k.get("dtype", t.dtype)),
